@@ -41,6 +41,14 @@ TABLE = {
             "validates the logged verdicts against Expected3 / the hash laws; the Python value table must match the TLA+ "
             "table exactly and constructor signatures are compared with inspect.signature (drift = note, not violation).",
             "TLC, the (class, group, token) -> Python value table, small-scope hypothesis on attribute domains"),
+    "C14": ("SolutionCodec.tla / MC_SolutionCodec.tla / Trace_SolutionCodec.tla",
+            "The field / xml-name / cost / reader tables and the shipped solution schema's content models and lexical classes "
+            "are TLA+ constants; TLC checks table alignment, reader totality, schema acceptance of the abstract document and "
+            "ReadBack = identity over all models x vehicle types x costs x value classes x metadata subsets (per dimension "
+            "exhaustive). Every case is written with CommonRoadSolutionWriter, validated with lxml against the shipped XSD "
+            "(cross-check of the TLA+ schema automaton), read back, and TLC validates the abstract document and the "
+            "read-back descriptor (bit identity of doubles classified by struct.pack in the projection).",
+            "TLC, lxml as cross-check of the schema transcription, struct.pack bit comparison in the projection"),
 }
 
 PENDING_REASON = "check not built yet in this round (specification module planned in DESIGN.md section 4); not claimed"
